@@ -346,7 +346,10 @@ var generators = []generator{
 	{"ints:clustered", "sysl", intsGen(true, false, "%(epname).png"), false},
 	{"ints:epa", "sysl", intsGen(false, true, "%(epname).png"), false},
 	{"ints:epa-clustered", "sysl", intsGen(true, true, "%(epname).png"), false},
+	{"ints:fixed-output-name", "sysl", intsGen(false, false, "out.png"), false},
 	{"datamodel:project", "sysl", dataGen(false, "%(epname).png"), false},
+	{"datamodel:project-fixed-output-name", "sysl", dataGen(false, "out.png"), false},
+	{"datamodel:direct-fixed-output-name", "sysl", dataGen(true, "out.png"), false},
 	{"datamodel:direct", "sysl", dataGen(true, "%(epname).png"), false},
 	{"mermaid:ints-full", "sysl", mermaidGen("ints-full"), false},
 	{"mermaid:ints-app", "sysl", mermaidGen("ints-app"), false},
@@ -365,7 +368,7 @@ var generators = []generator{
 	{"db:create", "sysl", dbCreate, false},
 	{"db:delta", "sysl-delta", dbDelta, true},
 	{"relmod", "sysl", relmodGen, true},
-	{"import:openapi3", "openapi3", importGen("openapi3"), false},
+	{"import:openapi3", "openapi3", importGen("openapi3"), true},
 	{"import:swagger", "swagger", importGen("swagger"), false},
 	{"import:xsd", "xsd", importGen("xsd"), false},
 }
